@@ -46,8 +46,17 @@ def concretise(ms, rng, variant):
         if variant.get("nested") and not m["dir"] and not m["inline"]:
             data = nested_tar(i)
             size = len(data)
-        members.append({"name": name, "visor": m["visor"], "dir": m["dir"], "size": size, "inline": m["inline"], "slot": m["slot"],
-                        "data": data, "prefix": prefix})
+        mm = {"name": name, "visor": m["visor"], "dir": m["dir"], "size": size, "inline": m["inline"], "slot": m["slot"],
+              "data": data, "prefix": prefix}
+        if m.get("ext"):
+            # an extension record of m["ext"] blocks (its header + payload) carries the real, long name
+            kind = rng.choice(["gnu", "pax"])
+            lo, hi = (101, 470) if m["ext"] == 2 else (520, 980)
+            ln = rng.randrange(lo, hi)
+            stem = f"long{i}/" + "/".join("seg%02d" % (j % 100) + "x" * 40 for j in range(30))
+            full = stem[:ln - 1].rstrip("/") + ("/" if m["dir"] else "e")
+            mm.update(ext_kind=kind, fullname=full, name=full[:100], prefix="", ext_visor=(m["visor"] and rng.random() < 0.3))
+        members.append(mm)
     return members
 
 
@@ -55,19 +64,23 @@ def check_archive(ctx, ms, members, blob, variant, attrs):
     from dissect.hypervisor.util import vmtar
 
     det = {"members": ms, "variant": variant}
-    for mode in ("plain", "gzip", "class"):
+    for mode in ("plain", "gzip", "gzip-multi", "class"):
         try:
             if mode == "plain":
                 t = vmtar.open(fileobj=io.BytesIO(blob))
             elif mode == "gzip":
                 t = vmtar.open(fileobj=io.BytesIO(gzip.compress(blob)))
+            elif mode == "gzip-multi":
+                # a gzip file may consist of several members (concatenated streams); it decompresses to their concatenation
+                cuts = sorted({0, len(blob)} | {(len(blob) * k // 3) | 1 for k in (1, 2)} if len(blob) > 8 else {0, len(blob)})
+                t = vmtar.open(fileobj=io.BytesIO(b"".join(gzip.compress(blob[a:b]) for a, b in zip(cuts, cuts[1:]))))
             else:
                 t = vmtar.VisorTarFile(fileobj=io.BytesIO(blob))
             got = t.getmembers()
         except Exception as e:  # noqa: BLE001
             ctx.violation({**attrs, "fail": "open-raised", "mode": mode, "exc": type(e).__name__}, {**det, "error": repr(e)[:300]})
             return False
-        want_names = [(m["prefix"] + "/" if m["prefix"] else "") + m["name"].rstrip("/") for m in members]
+        want_names = [m["fullname"].rstrip("/") if m.get("ext_kind") else (m["prefix"] + "/" if m["prefix"] else "") + m["name"].rstrip("/") for m in members]
         if [g.name for g in got] != want_names:
             ctx.violation({**attrs, "fail": "listing", "mode": mode}, {**det, "want": want_names, "got": [g.name for g in got]})
             return False
@@ -138,11 +151,13 @@ def run(ctx):
     thorough = ctx.tier == "thorough"
     ctx.rule = ("every member list enumerated by TLC from spec/Vmtar.tla (<= 3-4 members; visor/ustar, dir, size class, inline vs data "
                 "area, data-area order) x layout variants (data alignment 4096 / 512 / 1, gaps, long names + ustar prefixes, trailing "
-                "padding) x {plain, gzip, VisorTarFile}; non-trivial = archive with a visor member whose data is in the data area or an "
+                "padding) x {plain, gzip, multi-member gzip, VisorTarFile}; non-trivial = archive with a visor member whose data is in the data area or an "
                 "interleaving of visor and ustar members; distinct by (member list, variant)")
     ctx.assumptions = ["CPython's tarfile is the 'standard tar reader'", "independent header writer harness/enc_vmtar.py"]
     diskprop.tlc_check(ctx, "Vmtar", "Vmtar_small.cfg", min_states=1000, need_actions=("Step",))
     sts = diskprop.dump_states(ctx, "Vmtar", "Vmtar_img4.cfg" if thorough else "Vmtar_img.cfg")
+    if thorough:
+        sts = sts + diskprop.dump_states(ctx, "Vmtar", "Vmtar_img3x.cfg")
 
     def work(sub, chunk, idx):
         rng = random.Random(ctx.seed * 2020 + idx)
@@ -182,7 +197,7 @@ def random_archives(ctx, rng, n):
             visor = rng.random() < 0.7
             size = 0 if d else rng.choice([0, 1, 511, 512, 513, 1024, 3000, 70000])
             inline = d or size == 0 or not visor or rng.random() < 0.2
-            ms.append({"visor": visor, "dir": d, "size": size, "inline": inline, "slot": 1})
+            ms.append({"visor": visor, "dir": d, "size": size, "inline": inline, "slot": 1, "ext": rng.choice([0, 0, 0, 2, 3])})
         ext = [m for m in ms if not m["inline"]]
         order = list(range(1, len(ext) + 1))
         rng.shuffle(order)
@@ -195,7 +210,7 @@ def random_archives(ctx, rng, n):
             got = t.getmembers()
             listed = []
             for g in got:
-                idx = next((i + 1 for i, m in enumerate(members) if m["name"].rstrip("/") == g.name), 0)
+                idx = next((i + 1 for i, m in enumerate(members) if m.get("fullname", m["name"]).rstrip("/") == g.name), 0)
                 listed.append([idx, g.offset])
                 if g.isfile() and idx and t.extractfile(g).read() != members[idx - 1]["data"]:
                     ctx.violation({"variant": "random-archives", "fail": "extract-mismatch"}, {"members": ms, "member": g.name})
